@@ -13,6 +13,8 @@ scenario = {'ports': [{'id': 'p0', 'kind': K, 'value': v}], 'script': [cmd...]}
        ['set', pid, value]   the device behind a harness port now shows `value` (None = unavailable);
                              for a virtual port: the value is written through the hub (transform_and_write_value)
        ['disable', pid] / ['enable', pid]      (only ports without an expression)
+       ['set+fault', pid, value, faulty_pid, kind]   like 'set', and the next driver read of harness port `faulty_pid` raises `kind`
+                             once (OSError / ValueError / RuntimeError / TimeoutError): the pass must go on
        ['readd', pid, value]  a virtual port without expression is disabled, removed, created again under the same id,
                              enabled and given `value`
   after every command the hub runs polling passes until nothing changes any more (no latencies in this stream).
@@ -96,8 +98,13 @@ async def run_scenario(sc):
             super().__init__(port_id)
             self.kind = kind
             self.store = value
+            self.fault_once = None
 
         async def read_value(self):
+            if self.fault_once:
+                kind, self.fault_once = self.fault_once, None
+                raise {'OSError': OSError, 'ValueError': ValueError, 'RuntimeError': RuntimeError,
+                       'TimeoutError': asyncio.TimeoutError}[kind]('scripted read fault')
             return self.store
 
         async def write_value(self, value):
@@ -183,12 +190,17 @@ async def run_scenario(sc):
         return [p.get_id() for p in ports
                 if p._eval_queue.qsize() or p._evaling or p._write_value_queue.qsize() or p._writing] + (['*'] if in_eaw[0] else [])
 
+    escaped = [0]
+
     async def settle():
         """passes until a pass changes nothing and no task is busy"""
         calm = 0
         for _ in range(200):
             before = [(p.get_last_read_value(), p.is_enabled()) for p in ports]
-            await main.update()
+            try:
+                await main.update()
+            except Exception:  # noqa  (update_loop logs whatever escapes a pass and carries on)
+                escaped[0] += 1
             for _ in range(50):
                 await asyncio.sleep(0)
                 if not busy():
@@ -210,6 +222,13 @@ async def run_scenario(sc):
             elif op == 'expr-in-handler':
                 armed.append([cmd[1], cmd[2], cmd[3]])
                 by_id[cmd[3]].store = dec(cmd[4])
+            elif op == 'set+fault':
+                by_id[cmd[3]].fault_once = cmd[4]
+                v = dec(cmd[2])
+                if kinds[cmd[1]].startswith('h'):
+                    p.store = v
+                else:
+                    await p.transform_and_write_value(v)
             elif op == 'set':
                 v = dec(cmd[2])
                 if kinds[cmd[1]].startswith('h'):
@@ -255,7 +274,8 @@ async def run_scenario(sc):
     core_ports._ports_by_id.clear()
     events_handlers._registered_handlers[:] = []
     core_ports.BasePort._eval_and_write = orig_eaw
-    return {'ports': out, 'quiescent': quiescent, 'error': error, 'armed_left': len(armed), 'restore_outcome': restore_outcome}
+    return {'ports': out, 'quiescent': quiescent, 'error': error, 'armed_left': len(armed), 'restore_outcome': restore_outcome,
+            'passes_aborted_by_an_exception': escaped[0]}
 
 
 if __name__ == '__main__':
